@@ -75,12 +75,16 @@ fn main() {
         let rounded = case["rounded"].as_bool().unwrap();
         let text = case["text"].as_str().unwrap().to_string();
         let pickups: Vec<(i64, i64)> = case["pickups"].as_array().map(|v| v.iter().map(|p| (p[0].as_i64().unwrap(), p[1].as_i64().unwrap())).collect()).unwrap_or_default();
+        let (tmp_in, tmp_sol) = (format!("{}.in.tmp", arg_req("--out")), format!("{}.sol.tmp", arg_req("--out")));
         let r = catch(|| -> Value {
-            let read = match fmt.as_str() {
-                "solomon" => text.clone().read_solomon(rounded),
-                "lilim" => text.clone().read_lilim(rounded),
-                _ => text.clone().read_tsplib(rounded),
+            // the path a user takes: the format table of the command line (extensions/solve/formats.rs) over files
+            let formats = vrp_cli::extensions::solve::formats::get_formats(rounded, Arc::new(DefaultRandom::default()));
+            let (reader, init_reader, writer, _) = match formats.get(fmt.as_str()) {
+                Some(f) => f,
+                None => return json!({"status": "err", "error": format!("format {fmt} is not in the format table")}),
             };
+            std::fs::write(&tmp_in, text.as_bytes()).unwrap();
+            let read = (reader.0)(std::fs::File::open(&tmp_in).unwrap(), None);
             let problem = match read {
                 Ok(p) => Arc::new(p),
                 Err(e) => return json!({"status": "err", "error": e.to_string()}),
@@ -131,13 +135,12 @@ fn main() {
                         }
                     }
                     if fmt != "lilim" && solution.unassigned.is_empty() {
-                        let mut buf = BufWriter::new(Vec::new());
-                        let written = if fmt == "solomon" { (&solution).write_solomon(&mut buf) } else { (&solution).write_tsplib(&mut buf) };
+                        let file: Box<dyn std::io::Write> = Box::new(std::fs::File::create(&tmp_sol).unwrap());
+                        let written = (writer.0)(problem.as_ref(), solution, BufWriter::new(file), None);
                         reread = match written {
                             Err(e) => json!({"status": "write-err", "error": e.to_string(), "routes": []}),
                             Ok(()) => {
-                                let bytes = buf.into_inner().unwrap();
-                                match read_init_solution(BufReader::new(bytes.as_slice()), problem.clone(), Arc::new(DefaultRandom::default())) {
+                                match (init_reader.0)(std::fs::File::open(&tmp_sol).unwrap(), problem.clone()) {
                                     Ok(s) => json!({"status": "ok", "routes": routes_of(&problem, &fmt, &s, &pickups), "unassigned": s.unassigned.len()}),
                                     Err(e) => json!({"status": "read-err", "error": e.to_string(), "routes": []}),
                                 }
